@@ -482,3 +482,446 @@ def blocks_with_assuming(ctx, ev, body):
 def keys_at_assuming(ctx, ev, body, bb):
     _assume_wrap(ctx, ev)
     return ev.keys_at(body, bb)
+
+
+# ================================================================================================
+# feasibility refinement (correlated Option/flag aggregates)
+# ================================================================================================
+
+def refined_infeasible(ctx, body, assume_cur=False, extra=None):
+    """Fixpoint of: edges that admit no variant; (optionally) `current task is None` edges; enum
+    edges whose subject is built only from aggregates and whose admitted variants are built only in
+    unreachable blocks (e.g. `let x = if let Some(..) = cur { Some(..) } else { None }; .. if let Some(..) = x`)."""
+    base = ctx.infeasible(body, assume_cur)
+    dead = set()
+
+    def avoid(n):
+        return base(n) or n in dead or (extra(n) if extra else False)
+    while True:
+        seen = body.reach([0], avoid=avoid)
+        new = set()
+        for (bb, k), g in body.guards.items():
+            node = ('e', bb, k)
+            if node in dead or g.kind != 'enum':
+                continue
+            if not g.origins or not all(o.kind == 'aggr' and not o.path for o in g.origins):
+                continue
+            allowed = set()
+            for o in g.origins:
+                abb, si = o.key
+                if abb in seen:
+                    allowed.add(body.blocks[abb]['stmts'][si]['rv']['ak'].get('variant'))
+            vs = g.variants()
+            if vs is not None and not (vs & allowed):
+                new.add(node)
+        if not new:
+            return avoid
+        dead |= new
+
+
+# ================================================================================================
+# VAL — write validation; hidden-dependency guard on the reading side
+# ================================================================================================
+
+def guard_edges_on_call(body, call, path=()):
+    """[(node, guard)] for switch edges testing the (projected) result of `call`."""
+    out = []
+    for (bb, k), g in body.guards.items():
+        if all(o.kind == 'call' and o.key == call.bb and tuple(o.path) == tuple(path) for o in g.origins) and g.origins:
+            out.append((('e', bb, k), g))
+    return out
+
+
+def make_val_events(ctx):
+    R, roles, F = ctx.R, ctx.roles, ctx.F
+
+    def is_q(c, pred, variants):
+        q = roles.query_of_call(c)
+        return q is not None and pred(q) and q['variants'] == frozenset(variants)
+
+    def escape_edges(body, wcall):
+        """edges asserting `writer == something` (the only admissible escape from the overlap abort)."""
+        out = set()
+        for (bb, k), g in body.guards.items():
+            if g.kind != 'bool':
+                continue
+            for sc in g.subject_calls():
+                if sc.qname in ('std::cmp::PartialEq::eq', 'std::cmp::PartialEq::ne') and len(sc.args) == 2:
+                    a0 = ctx.base_call_bbs(body.orig_operand(sc.args[0]))
+                    a1 = ctx.base_call_bbs(body.orig_operand(sc.args[1]))
+                    if wcall.bb in a0 or wcall.bb in a1:
+                        want = sc.qname.endswith('::eq')
+                        if g.truth() == want:
+                            out.add(('e', bb, k))
+        return out
+
+    def m_overlap(body, node):
+        if isinstance(node, tuple):
+            return None
+        c = body.call_at(node)
+        if c is None or not is_q(c, roles.is_writer_of, ['Write']):
+            return None
+        inf = ctx.infeasible(body)
+        esc = escape_edges(body, c)
+        edges = [(n, g) for n, g in guard_edges_on_call(body, c) if g.variants() and 'Some' in g.variants()]
+        if not edges:
+            return None
+        for n, g in edges:
+            seen = body.reach([n], avoid=ctx.both(inf, lambda x: x in esc))
+            if any(r in seen for r in body.returns()):
+                return None
+        return (body.orig_operand(c.args[1]),)
+
+    def loop_over(body, qcall):
+        """`next` calls iterating the result of qcall."""
+        return [n for n in body.find_calls(lambda n: n.qname == 'std::iter::Iterator::next')
+                if qcall.bb in ctx.base_call_bbs(body.orig_operand(n.args[0]))]
+
+    def m_hidden_w(body, node):
+        if isinstance(node, tuple):
+            return None
+        c = body.call_at(node)
+        if c is None or not is_q(c, roles.is_readers_of, ['Read']):
+            return None
+        nexts = loop_over(body, c)
+        if len(nexts) != 1:
+            return None
+        nx = nexts[0]
+        inf = ctx.infeasible(body)
+        some_edges = [n for n, g in guard_edges_on_call(body, nx) if g.variants() == frozenset(['Some'])]
+        if not some_edges:
+            return None
+        ts = []
+        for t in body.find_calls(lambda t: F.callee_body(t) is not None and F.callee_body(t).id == roles.trans_req.id):
+            a1 = body.orig_operand(t.args[1])
+            if len(a1) == 1 and all(o.kind == 'call' and o.key == nx.bb for o in a1):
+                ts.append(t)
+        if not ts:
+            return None
+        tb = {t.bb for t in ts}
+        for e in some_edges:
+            seen = body.reach([e], avoid=ctx.both(inf, lambda x: x in tb))
+            if nx.bb in seen or any(r in seen for r in body.returns()):
+                return None
+        srcs = set()
+        for t in ts:
+            false_edges = [n for n, g in guard_edges_on_call(body, t) if g.truth() is False]
+            if not false_edges:
+                return None
+            for e in false_edges:
+                seen = body.reach([e], avoid=inf)
+                if nx.bb in seen or any(r in seen for r in body.returns()):
+                    return None
+            srcs.add(body.orig_operand(t.args[2]))
+        if len(srcs) != 1:
+            return None
+        return (body.orig_operand(c.args[1]), next(iter(srcs)))
+
+    def m_hidden_r(body, node):
+        if isinstance(node, tuple):
+            return None
+        c = body.call_at(node)
+        if c is None or not is_q(c, roles.is_writer_of, ['Write']):
+            return None
+        inf = ctx.infeasible(body)
+        some_edges = [n for n, g in guard_edges_on_call(body, c) if g.variants() == frozenset(['Some'])]
+        if not some_edges:
+            return None
+        ts = []
+        for t in body.find_calls(lambda t: F.callee_body(t) is not None and F.callee_body(t).id == roles.trans_req.id):
+            a1 = body.orig_operand(t.args[1])
+            a2 = body.orig_operand(t.args[2])
+            if ctx.is_cur(a1) and len(a1) == 1 and len(a2) == 1 and all(o.kind == 'call' and o.key == c.bb for o in a2):
+                ts.append(t)
+        if not ts:
+            return None
+        tb = {t.bb for t in ts}
+        for e in some_edges:
+            seen = body.reach([e], avoid=ctx.both(inf, lambda x: x in tb))
+            if any(r in seen for r in body.returns()):
+                return None
+        for t in ts:
+            false_edges = [n for n, g in guard_edges_on_call(body, t) if g.truth() is False]
+            if not false_edges:
+                return None
+            for e in false_edges:
+                seen = body.reach([e], avoid=inf)
+                if any(r in seen for r in body.returns()):
+                    return None
+        return (body.orig_operand(c.args[1]),)
+
+    return Event('overlap-guard', m_overlap), Event('hidden-guard(write side)', m_hidden_w), Event('hidden-guard(read side)', m_hidden_r)
+
+
+def rule_val(ctx):
+    """Direct report on every function that queries the recorded writer / readers of a resource for
+    validation: the guard must be intact where it stands."""
+    R, roles, F = ctx.R, ctx.roles, ctx.F
+    ev_overlap, ev_hw, ev_hr = make_val_events(ctx)
+    ctx.ev_overlap, ctx.ev_hw, ctx.ev_hr = ev_overlap, ev_hw, ev_hr
+    n_w = n_r = 0
+    for body in F.bodies.values():
+        if body.crate != 'pie' or body.is_test_code() or (body.impl_self and type_head(body.impl_self) == roles.store_adt):
+            continue
+        for c in body.find_calls(lambda c: roles.query_of_call(c) is not None):
+            q = roles.query_of_call(c)
+            key = body.path
+            if roles.is_writer_of(q):
+                n_w += 1
+                good_q = q['variants'] == frozenset(['Write'])
+                R.ob('STORE-writer-of', key, good_q, 'the recorded-writer query selects Write dependencies on incoming edges' if good_q
+                     else 'the recorded-writer query %s selects %s' % (q['body'].name, q['variants']), ctx.where(body, c.bb), props=('C05', 'C06'))
+                ko = ev_overlap.match(body, c.bb)
+                kr = ev_hr.match(body, c.bb)
+                good = ko is not None or kr is not None
+                R.ob('VAL-writer-guard', key, good,
+                     ('recorded writer found => abort (overlapping write)' if ko is not None else
+                      'recorded writer found => abort unless the current task transitively requires it (hidden dependency)') if good
+                     else 'a recorded writer does not lead to an abort: neither the overlap guard nor the hidden-dependency guard holds here '
+                          '(argument order/provenance of the reachability test, polarity, or an escaping path)',
+                     ctx.where(body, c.bb), props=('C05', 'C06') if good and ko is not None else ('C05', 'C06'))
+            elif roles.is_readers_of(q):
+                n_r += 1
+                good_q = q['variants'] == frozenset(['Read'])
+                R.ob('STORE-readers-of', key, good_q, 'the recorded-readers query selects Read dependencies on incoming edges' if good_q
+                     else 'the recorded-readers query %s selects %s' % (q['body'].name, q['variants']), ctx.where(body, c.bb), props=('C05',))
+                k = ev_hw.match(body, c.bb)
+                good = k is not None
+                R.ob('VAL-readers-guard', key, good, 'every recorded reader must transitively require the writing task, else abort' if good
+                     else 'the loop over recorded readers does not abort for a reader that lacks a transitive dependency on the writer '
+                          '(missing test, swapped arguments, inverted polarity, or an escaping path)', ctx.where(body, c.bb), props=('C05',))
+                if good:
+                    src = k[1]
+                    sgood = all(o.kind == 'arg' for o in src) or ctx.is_cur(src)
+                    R.ob('VAL-readers-guard-src', key, sgood, 'the reachability test is reader -> writer (the writer being the validated task)' if sgood
+                         else 'second argument of the reachability test is not the writing task: %s' % body.describe_origins(src), ctx.where(body, c.bb), props=('C05',))
+    R.floor('VAL', 'recorded-writer query use sites', n_w, 2, props=('C05', 'C06'))
+    R.floor('VAL', 'recorded-readers query use sites', n_r, 1, props=('C05',))
+
+
+# ================================================================================================
+# OPS — read / write / written_to
+# ================================================================================================
+
+def find_ops(ctx):
+    F = ctx.F
+    out = {'read': [], 'write': [], 'written_to': []}
+    for b in F.bodies.values():
+        if b.crate != 'pie' or b.is_test_code() or b.kind != 'AssocFn' or b.impl_trait == 'pie::ResourceChecker':
+            continue
+        if not (b.impl_self and type_head(b.impl_self) == ctx.roles.session_adt):
+            continue
+        adds = [c for c in b.find_calls(lambda c: F.callee_body(c) is not None and ctx.roles.add_dep is not None
+                                        and F.callee_body(c).id == ctx.roles.add_dep.id)]
+        if not any(_find_resource_dep_new(ctx, b, c.args[3]) is not None for c in adds):
+            continue
+        if b.find_calls(lambda c: c.qname == 'pie::Resource::read'):
+            out['read'].append(b)
+        elif b.find_calls(lambda c: c.qname == 'pie::Resource::write'):
+            out['write'].append(b)
+        else:
+            out['written_to'].append(b)
+    return out
+
+
+def rule_ops(ctx):
+    R, roles, F = ctx.R, ctx.roles, ctx.F
+    if not hasattr(ctx, 'ev_overlap'):
+        ctx.ev_overlap, ctx.ev_hw, ctx.ev_hr = make_val_events(ctx)
+    ops = find_ops(ctx)
+    for kind in ('read', 'write', 'written_to'):
+        R.floor('OPS', 'context operation `%s`' % kind, len(ops[kind]), 1, props=('C05', 'C06', 'C08', 'C09', 'C17'))
+    ev_add = Event('add-dependency', lambda body, node: None)
+
+    for kind, want_variant, stamp_fn in (('read', 'Read', 'stamp_reader'), ('write', 'Write', 'stamp_writer'), ('written_to', 'Write', 'stamp')):
+        for body in ops[kind]:
+            key = body.path
+            infc = refined_infeasible(ctx, body, assume_cur=True)
+            oks = ctx.ok_exit_blocks(body)
+            adds = [c for c in body.find_calls(lambda c: F.callee_body(c) is not None and F.callee_body(c).id == roles.add_dep.id)]
+            # ---- the dependency is added on every tracked success path, with the right variant
+            add_bbs = {c.bb for c in adds}
+            bad = None
+            for e in oks:
+                w = body.must_before(e, ctx.both(infc, lambda n: n in add_bbs))
+                if w is not None:
+                    bad = w
+            R.ob('OPS-add', key, bad is None and bool(adds), 'a dependency is recorded on every success path while a task is executing' if bad is None and adds
+                 else 'a success exit is reachable (with a task executing) without recording the dependency:\n' + (body.fmt_path(bad) if bad else ''),
+                 ctx.where(body), props=('C08', 'C03', 'C05'))
+            for a in adds:
+                vs = ctx.dep_variants(body, a.args[3])
+                good = vs == {want_variant}
+                R.ob('OPS-variant', key, good, '%s records a %s dependency' % (kind, want_variant) if good else '%s records variant(s) %s' % (kind, sorted(vs)),
+                     ctx.where(body, a.bb), props=('C08', 'C05', 'C06'))
+                src = body.orig_operand(a.args[1])
+                good = ctx.is_cur(src) or all(o.kind == 'aggr' for o in src) and _aggr_field_is_cur(ctx, body, a.args[1])
+                R.ob('OPS-src', key, bool(good), 'the dependency is attributed to the currently executing task' if good
+                     else 'dependency source is not the executing task: %s' % body.describe_origins(src), ctx.where(body, a.bb), props=('C08',))
+                # provenance of ResourceDependency::new(resource, checker, stamp)
+                rd = _find_resource_dep_new(ctx, body, a.args[3])
+                if rd is None:
+                    R.undecided('OPS-prov', key, 'cannot find the ResourceDependency constructor feeding add_dependency', ctx.where(body, a.bb), props=('C08', 'C09'))
+                    continue
+                res_o, chk_o, st_o = (body.orig_operand(x) for x in rd.args)
+                good = all(o.kind == 'arg' and o.key == 2 for o in res_o) and len(res_o) == 1
+                R.ob('OPS-prov-resource', key, good, 'the recorded resource is the operation\'s resource' if good else 'recorded resource origin: %s' % body.describe_origins(res_o),
+                     ctx.where(body, rd.bb), props=('C08',))
+                good = all(o.kind == 'arg' and o.key == 3 for o in chk_o) and len(chk_o) == 1
+                R.ob('OPS-prov-checker', key, good, 'the recorded checker is the one the task passed' if good else 'recorded checker origin: %s' % body.describe_origins(chk_o),
+                     ctx.where(body, rd.bb), props=('C08', 'C09'))
+                scs = [body.calls[o.key] for o in st_o if o.kind == 'call']
+                good = len(st_o) == 1 and len(scs) == 1 and scs[0].qname == 'pie::ResourceChecker::' + stamp_fn
+                R.ob('OPS-prov-stamp', key, good, 'the recorded stamp is the one just computed by %s' % stamp_fn if good else 'recorded stamp origin: %s' % body.describe_origins(st_o),
+                     ctx.where(body, rd.bb), props=('C08', 'C09'))
+                if not good:
+                    continue
+                sc = scs[0]
+                c0 = body.orig_operand(sc.args[0])
+                r0 = body.orig_operand(sc.args[1])
+                good = all(o.kind == 'arg' and o.key == 3 for o in c0) and all(o.kind == 'arg' and o.key == 2 for o in r0)
+                R.ob('OPS-stamp-args', key, good, 'the stamp is taken by the task\'s checker on the operation\'s resource' if good
+                     else 'stamp taken with checker %s on resource %s' % (body.describe_origins(c0), body.describe_origins(r0)), ctx.where(body, sc.bb), props=('C09',))
+                dst_o = body.orig_operand(a.args[2])
+                _ops_specific(ctx, body, kind, key, sc, a, dst_o, infc, oks)
+            _ops_tracker(ctx, body, kind, key, infc, oks)
+
+
+def _aggr_field_is_cur(ctx, body, op):
+    return False
+
+
+def _find_resource_dep_new(ctx, body, op, depth=0):
+    """Follow a Dependency operand back to the ResourceDependency::new call that built its payload."""
+    if op[0] not in ('c', 'm') or depth > 4:
+        return None
+    for d in body.defs.get(op[1][0], []):
+        if d[0] == 'call':
+            c = d[2]
+            if c.qname.endswith('ResourceDependency::new') and len(c.args) == 3:
+                return c
+            for a in c.args:
+                r = _find_resource_dep_new(ctx, body, a, depth + 1)
+                if r is not None:
+                    return r
+        elif d[0] == 'stmt' and d[3]['k'] in ('use', 'cast'):
+            r = _find_resource_dep_new(ctx, body, ctx.F.operand(d[3]['op']), depth + 1)
+            if r is not None:
+                return r
+        elif d[0] == 'stmt' and d[3]['k'] == 'aggr':
+            for o in d[3]['ops']:
+                r = _find_resource_dep_new(ctx, body, ctx.F.operand(o), depth + 1)
+                if r is not None:
+                    return r
+    return None
+
+
+def _ops_specific(ctx, body, kind, key, sc, add, dst_o, infc, oks):
+    R, roles, F = ctx.R, ctx.roles, ctx.F
+    if kind == 'read':
+        rds = body.find_calls(lambda c: c.qname == 'pie::Resource::read')
+        rd_bbs = {c.bb for c in rds}
+        reader_o = body.orig_operand(sc.args[2])
+        good = len(rds) == 1 and ctx.base_call_bbs(reader_o) == rd_bbs and all(o.kind == 'call' for o in reader_o)
+        R.ob('OPS-read-reader', key, good, 'the stamp is taken from the reader produced by the single Resource::read of this operation' if good
+             else 'stamp_reader is given %s; Resource::read calls: %d' % (body.describe_origins(reader_o), len(rds)), ctx.where(body, sc.bb), props=('C09',))
+        # the reader returned is that very reader
+        ret_ok = True
+        for d in body.defs.get(0, []):
+            if d[0] == 'stmt' and d[3]['k'] == 'aggr' and d[3]['ak'].get('variant') == 'Ok':
+                ro = body.orig_operand(F.operand(d[3]['ops'][0]))
+                if not (ctx.base_call_bbs(ro) == rd_bbs and all(o.kind == 'call' for o in ro)):
+                    ret_ok = False
+        R.ob('OPS-read-returned', key, ret_ok and len(rds) == 1, 'the reader handed to the task is the reader that was stamped' if ret_ok
+             else 'the returned reader is not the stamped one', ctx.where(body), props=('C09',))
+        # stamp before the reader is returned: stamp_reader dominates tracked ok exits (follows from OPS-add + provenance)
+        # hidden-dependency guard before the success exit
+        hr_blocks = ctx.ev_hr.blocks_with(body, lambda k: k[0] == dst_o)
+        bad = None
+        for e in oks:
+            w = body.must_before(e, ctx.both(infc, lambda n: n in hr_blocks))
+            if w is not None:
+                bad = w
+        R.ob('OPS-read-guard', key, bad is None, 'the hidden-dependency guard (recorded writer must be transitively required by the reader) precedes every tracked success exit, '
+             'for the node the dependency is recorded on' if bad is None else 'read can return (with a task executing) without the hidden-dependency guard:\n' + body.fmt_path(bad),
+             ctx.where(body), props=('C05',))
+    else:
+        ov = ctx.ev_overlap.blocks_with(body, lambda k: k[0] == dst_o)
+        hw = ctx.ev_hw.blocks_with(body, lambda k: k[0] == dst_o and (ctx.is_cur(k[1])))
+        if kind == 'write':
+            wrs = body.find_calls(lambda c: c.qname == 'pie::Resource::write')
+            wfn = [c for c in body.find_calls(lambda c: c.qname in CLOSURE_CALLS)
+                   if all(o.kind == 'arg' for o in body.orig_operand(c.args[0])) and body.orig_operand(c.args[0])]
+            targets = [('Resource::write', c) for c in wrs] + [('the task\'s write function', c) for c in wfn]
+            R.ob('OPS-write-shape', key, len(wrs) == 1 and len(wfn) == 1, 'one writer creation and one invocation of the write function' if len(wrs) == 1 and len(wfn) == 1
+                 else 'Resource::write calls: %d, write_fn invocations: %d' % (len(wrs), len(wfn)), ctx.where(body), props=('C05', 'C06', 'C09', 'C19'))
+        else:
+            targets = [('ResourceChecker::stamp', sc)]
+        for what, t in targets:
+            w1 = body.must_before(t.bb, ctx.both(infc, lambda n: n in ov))
+            R.ob('OPS-%s-overlap-first' % kind, key + '#' + what, w1 is None, 'the overlapping-write guard precedes %s' % what if w1 is None
+                 else '%s is reachable (with a task executing) before the overlapping-write guard ran:\n%s' % (what, body.fmt_path(w1)), ctx.where(body, t.bb), props=('C06', 'C19'))
+            w2 = body.must_before(t.bb, ctx.both(infc, lambda n: n in hw))
+            R.ob('OPS-%s-hidden-first' % kind, key + '#' + what, w2 is None, 'the hidden-dependency guard (readers must require the writer) precedes %s' % what if w2 is None
+                 else '%s is reachable (with a task executing) before the hidden-dependency guard ran:\n%s' % (what, body.fmt_path(w2)), ctx.where(body, t.bb), props=('C05', 'C19'))
+        if kind == 'write' and len(wrs) == 1 and len(wfn) == 1:
+            wr, fn = wrs[0], wfn[0]
+            # write_fn(&mut writer) before stamp_writer(writer): same writer
+            w = body.must_before(sc.bb, ctx.both(infc, lambda n: n == fn.bb))
+            R.ob('OPS-write-order', key, w is None, 'the stamp is taken after the task\'s write function has run' if w is None
+                 else 'stamp_writer is reachable before the write function ran:\n' + body.fmt_path(w), ctx.where(body, sc.bb), props=('C09',))
+            wo = body.orig_operand(sc.args[2])
+            tup = body.orig_operand(fn.args[1])
+            f0 = set()
+            for t in tup:
+                f0 |= body._project(t, [('f', 0, '0', 'tuple')], None)
+            good = ctx.base_call_bbs(wo) == {wr.bb} and ctx.base_call_bbs(f0) == {wr.bb}
+            R.ob('OPS-write-writer', key, good, 'the writer given to the write function and the writer stamped are the one created by Resource::write' if good
+                 else 'writer given to write_fn: %s, writer stamped: %s' % (body.describe_origins(f0), body.describe_origins(wo)), ctx.where(body, sc.bb), props=('C09',))
+
+
+def _ops_tracker(ctx, body, kind, key, infc, oks):
+    R, roles, F = ctx.R, ctx.roles, ctx.F
+    sname, ename = ('read_start', 'read_end') if kind == 'read' else ('write_start', 'write_end')
+    ev_s = ev_trait_call(ctx, TRACKER + sname, sname)
+    starts = ev_s.blocks_with(body)
+    ends = set()
+    stamp_ok = True
+    for sb in starts:
+        sc = body.call_at(sb)
+        if sc is not None and sc.qname != TRACKER + sname:
+            for e in tracking_end_calls(ctx, body, sc):
+                cb = F.callee_body(e)
+                if cb is not None and closure_calls_tracker(ctx, cb, ename):
+                    ends.add(e.bb)
+                    tup = body.orig_operand(e.args[1])
+                    f1 = set()
+                    for t in tup:
+                        f1 |= body._project(t, [('f', 1, '1', 'tuple')], None)
+                    if not all(o.kind == 'call' and body.calls[o.key].qname.startswith('pie::ResourceChecker::stamp') for o in f1):
+                        stamp_ok = False
+    for c in body.find_calls(lambda c: c.qname == TRACKER + ename):
+        ends.add(c.bb)
+        so = body.orig_operand(c.args[3]) if len(c.args) > 3 else frozenset()
+        if not all(o.kind == 'call' and body.calls[o.key].qname.startswith('pie::ResourceChecker::stamp') for o in so):
+            stamp_ok = False
+    bad = None
+    for e in oks:
+        w = body.must_before(e, ctx.both(infc, lambda n: n in starts))
+        if w is not None:
+            bad = w
+    R.ob('OPS-track-start', key, bad is None and bool(starts), '%s is emitted on every tracked success path' % sname if bad is None and starts
+         else 'a tracked success path has no %s event' % sname, ctx.where(body), props=('C17',))
+    bad = None
+    for e in oks:
+        w = body.must_before(e, ctx.both(infc, lambda n: n in ends))
+        if w is not None:
+            bad = w
+    R.ob('OPS-track-end', key, bad is None and bool(ends), '%s is emitted on every tracked success path' % ename if bad is None and ends
+         else 'a tracked success path returns without the %s event:\n%s' % (ename, body.fmt_path(bad) if bad else ''), ctx.where(body), props=('C17',))
+    R.ob('OPS-track-stamp', key, stamp_ok, '%s carries the stamp that was computed' % ename if stamp_ok else '%s carries a value that is not the computed stamp' % ename,
+         ctx.where(body), props=('C17',))
+    # an end never without its start
+    for eb in ends:
+        w = body.must_before(eb, ctx.both(infc, lambda n: n in starts))
+        R.ob('OPS-track-nested', key + '#%s' % ename, w is None, 'every %s is preceded by its %s' % (ename, sname) if w is None else 'end event reachable without start', ctx.where(body, eb), props=('C17',))
